@@ -202,6 +202,7 @@ def run(ctx: RuleContext, p: Program) -> None:
     from . import c12
     ctx.try_rule(c12.rule_str_boundary, p, c12.grammar(p), 'STR-BOUNDARY', 7 if ctx.tier == 'quick' else 9)
     ctx.try_rule(c12.rule_fmt_lang, p, c12.grammar(p), 'FMT-LANG')
+    ctx.try_rule(c12.rule_num_rt, p, c12.grammar(p), 'NUM-RT')
     ctx.try_rule(rule_fv_arg, p, 'FV-ARG')
     ctx.try_rule(grammar_rules.rule_inline_eol, p, 'INLINE-EOL')
     ctx.try_rule(grammar_rules.rule_lex_prio, p, 'LEX-PRIO')
